@@ -401,11 +401,16 @@ func genTemplate(t *rapid.T) Case {
 		c.Files = append(c.Files, mod("m", wrap(b.String())))
 	case "uses-cycle":
 		var b strings.Builder
-		for i := 0; i < n; i++ {
-			fmt.Fprintf(&b, "grouping g%d { leaf l%d { type string; } uses g%d; } ", i, i, cyc(i))
+		usesSub := func(label string) string {
+			// substatements on the uses statements (also on the one that closes the cycle)
+			return rapid.SampledFrom([]string{";", ";", " { when \"../x\"; }", " { if-feature f; }", " { status deprecated; reference r; }", " { description d; }", " { when \"a\"; if-feature f; status current; }", " { refine l0 { default x; } }", " { augment l0 { leaf q { type string; } } }"}).Draw(t, label)
 		}
+		for i := 0; i < n; i++ {
+			fmt.Fprintf(&b, "grouping g%d { leaf l%d { type string; } uses g%d%s } ", i, i, cyc(i), usesSub(fmt.Sprintf("uses-sub-%d", i)))
+		}
+		b.WriteString("feature f; ")
 		if rapid.Bool().Draw(t, "used") {
-			b.WriteString("container c { uses g0; } ")
+			fmt.Fprintf(&b, "container c { uses g0%s } ", usesSub("uses-sub-c"))
 		}
 		if rapid.Bool().Draw(t, "nested-self") {
 			b.WriteString("grouping outer { grouping inner { uses outer; } uses inner; } uses outer; ")
@@ -461,6 +466,9 @@ func genTemplate(t *rapid.T) Case {
 	case "numbers":
 		v := rapid.SampledFrom([]string{"-1", "0", "18446744073709551615", "18446744073709551616", "-18446744073709551615", "-9223372036854775809", "99999999999999999999999", "0x10", "1e5", "", " ", "+", "-", "1.5", "١"}).Draw(t, "value")
 		q := ymodel.Q(v)
+		fd := rapid.SampledFrom([]string{"0", "1", "18", "19", "63", "64", "65", "100", "128", "255", "256", "257", "320", "-1", "-192", "-256", "4294967297", "18446744073709551617"}).Draw(t, "fraction-digits")
+		rng := rapid.SampledFrom([]string{"min..max", "min", "max", "1..10", "min..0 | 1..max", "-1.5..1.5"}).Draw(t, "fd-range")
+		c.Files = append(c.Files, mod("fd", fmt.Sprintf("typedef d { type decimal64 { fraction-digits %s; range %s; } } leaf a { type d; } leaf b { type decimal64 { fraction-digits %s; } default 1.5; } leaf u { type union { type decimal64 { fraction-digits %s; } type decimal64 { fraction-digits %s; } type d; } } leaf c { type d { range %s; } }", fd, ymodel.Q(rng), fd, fd, fd, ymodel.Q(rng))))
 		c.Files = append(c.Files, mod("m", fmt.Sprintf("leaf a { type decimal64 { fraction-digits %s; range %s; } } leaf b { type enumeration { enum x { value %s; } enum y; } } leaf c { type bits { bit x { position %s; } bit y; } } leaf-list d { type string { length %s; } min-elements %s; max-elements %s; } list e { key k; leaf k { type string; } min-elements %s; max-elements %s; } leaf f { type uint64 { range \"%s..%s | %s\"; } } leaf g { type int8 { range %s; } default %s; }", q, q, q, q, q, q, q, q, q, v, v, v, q, q)))
 	case "leafref-union-cycle":
 		c.Files = append(c.Files, mod("m", "leaf a { type leafref { path \"../b\"; } } leaf b { type leafref { path \"../a\"; } } leaf c { type leafref { path \"\"; } } leaf d { type leafref; } typedef u { type union; } leaf e { type u; } leaf f { type union { type union { type union { type f; } } } } leaf g { type identityref; } leaf h { type instance-identifier { require-instance maybe; } } leaf i { type enumeration; } leaf j { type bits; } leaf k { type decimal64; }"))
